@@ -19,3 +19,5 @@ import MicroHttp.Props.Tables
 #print axioms MicroHttp.Tables.no_shared_state
 #print axioms MicroHttp.Tables.no_interior_mutability
 #print axioms MicroHttp.Tables.client_new
+#print axioms MicroHttp.Tables.client_fields
+#print axioms MicroHttp.Tables.server_fields
